@@ -31,17 +31,19 @@ ASSUMPTIONS = ["a text difference whose per-term value multisets agree under two
                "primes is an alpha-renaming of contracted indices (known finding "
                "F6), anything else is a violation"]
 
-ALT_NAMES = {"eri": "W", "coulomb": "c", "fock": "h", "operator": "o",
-             "gs_amplitude": "z", "gs_density": "rho",
-             "left_adc_amplitude": "L", "right_adc_amplitude": "R",
-             "orb_energy": "eps", "sym_orb_denom": "K"}
-ALT_ALIAS = {'W': 'V', 'c': 'v', 'h': 'f', 'o': 'd', 'L': 'X', 'R': 'Y',
-             'K': 'D', 'z1': 't1', 'z2': 't2', 'z3': 't3', 'z4': 't4',
+ALT_NAMES = {"eri": "Wt", "coulomb": "cl", "fock": "hc", "operator": "op",
+             "gs_amplitude": "amp", "gs_density": "rho",
+             "left_adc_amplitude": "Lv", "right_adc_amplitude": "Rv",
+             "orb_energy": "eps", "sym_orb_denom": "Kd"}
+# multi-character names on purpose (name parsing must use the configured length);
+# names that sympify to sympy singletons (Q, S, N, E, I, O) are avoided
+ALT_ALIAS = {'Wt': 'V', 'cl': 'v', 'hc': 'f', 'op': 'd', 'Lv': 'X', 'Rv': 'Y',
+             'Kd': 'D', 'amp1': 't1', 'amp2': 't2', 'amp3': 't3', 'amp4': 't4',
              'rho2': 'p2', 'rho3': 'p3'}
 
 QUICK = ['e3', 'amp2', 'ev2', 'm2', 'ip_cpl', 'tm2', 'ov2', 'mvp1', 're_amp2',
          'itmd_t2_2', 'e2@shared', 'amp2d@shared', 'norm4', 'itmd_p2',
-         'spin_generic', 'spin_direct']
+         'spin_generic', 'spin_direct', 'real_ov2', 'spin_ov2', 'prec3s']
 THOROUGH = QUICK + ['m1c', 'ea2', 're_e3', 'expec1', 'red_e2', 'sym_e2',
                     'fac_m1', 'code_m1', 'amp2d', 'e3@shared', 'm2@shared']
 
